@@ -531,12 +531,16 @@ def run(ctx):
         if maxrun >= 2:
             res["nontrivial"].add(("merge", repr(case)))
         if not in_domain(case):
-            # node lists emptied after construction: outside the statement's domain (Caption() forbids it);
-            # the model's Ok/Err outcome is compared for information only
-            bump(dist, "merge_out_of_domain_emptied_node_list(not judged)")
+            # node lists emptied after construction: outside the STATEMENT's domain (Caption() forbids it), so no
+            # violation is possible here; but the theorems C19_merge_never_raises_on_accepted / _error_branch /
+            # _raises_iff speak about exactly these inputs: the model's Ok value / Err outcome must be the code's
+            # (disagreement = the model no longer mirrors the code; audit w7 item 2)
+            bump(dist, "merge_out_of_domain_emptied_node_list(property not judged; model compared at alarm level)")
             mm = r_result(m, dec_langs)
             same = (isinstance(mm, Err) and isinstance(o1, Err)) or (isinstance(mm, Ok) and isinstance(o1, Ok) and mm.v == o1.v)
-            bump(dist, "merge_out_of_domain_model_differs(info)", int(not same))
+            if not same:
+                res["disagreements"].append({"what": "merge on emptied node lists: model outcome differs from the code",
+                                             "input": case, "impl": repr(o1)[:400], "model": repr(mm)[:400]})
             bump(dist, "merge_out_of_domain_raises", int(isinstance(o1, Err)))
             continue
         v, d = judge_merge(case, b, o1, o2, info, m, ok, okf)
